@@ -188,6 +188,12 @@ Proof.
     rewrite X, flush_idem. reflexivity.
   - rewrite A1, A2. reflexivity.
   - rewrite A1, A2. reflexivity.
+  - rewrite A1, A2. reflexivity.
+  - rewrite A1, A2. reflexivity.
+  - rewrite A1, A2. reflexivity.
+  - rewrite A1, A2. reflexivity.
+  - rewrite A1, A2. reflexivity.
+  - discriminate E.
 Qed.
 
 (* ---------------------------------------------------------------- documented: no load is emitted for a pending object *)
@@ -249,5 +255,11 @@ Proof.
   - rewrite A by (destruct m; reflexivity). cbn [dbc dbp set_cs].
     destruct (row_get (Z.to_N a) (dbc s)); simpl; auto.
   - destruct (load_rows_db (sel_val a (dbc s)) s) as (X & Y & _). destruct (load_rows _ s). simpl in *. auto.
+  - simpl; auto.
+  - simpl; auto.
+  - simpl; auto.
+  - simpl; auto.
+  - simpl; auto.
+  - simpl; auto.
   - simpl; auto.
 Qed.
